@@ -72,6 +72,11 @@ func (d *roleDialer) Dial(network, address string) (net.Conn, error) {
 	if err == nil {
 		d.events = append(d.events, dialEvent{vrt.ThreadName(), role, strings.TrimSuffix(c.(*vnet.Conn).Name, "/a")})
 	}
+	if err == nil && role == "deadwrite" {
+		// the connection is established but the very first write on it fails (not part of any registered
+		// job: on the pinned tree the client then panics, observation O6 in DESIGN.md)
+		return deafConn{c}, nil
+	}
 	return c, err
 }
 
